@@ -18,7 +18,15 @@ import (
 	"golang.org/x/tools/go/ssa/ssautil"
 )
 
-const repoDir = "/repo"
+// repoDir is /repo; VCHECK_REPO points the engine at a scratch worktree when a
+// seeded change is evaluated without touching /repo (never used by the
+// registered commands).
+var repoDir = func() string {
+	if d := os.Getenv("VCHECK_REPO"); d != "" {
+		return d
+	}
+	return "/repo"
+}()
 
 var verifDir = "/verif"
 
